@@ -628,6 +628,8 @@ pub struct AState {
     polls: usize,
     errors: usize,
     other_polls: usize,
+    /// buffers offered to poll_write (recorded in fault-free reference runs)
+    log: Option<Vec<Vec<u8>>>,
 }
 
 #[derive(Clone)]
@@ -637,6 +639,9 @@ impl AsyncWrite for AFaultySink {
     fn poll_write(self: Pin<&mut Self>, cx: &mut Context<'_>, buf: &[u8]) -> Poll<io::Result<usize>> {
         let mut s = self.0.lock().unwrap();
         s.polls += 1;
+        if let Some(l) = s.log.as_mut() {
+            l.push(buf.to_vec());
+        }
         let ev = if s.at < s.script.len() {
             s.at += 1;
             s.script[s.at - 1]
@@ -701,7 +706,7 @@ fn gen_ascript(rng: &mut Rng, n: usize, fail: Option<usize>) -> Vec<AEv> {
             0 | 1 => AEv::P,
             2 => AEv::A(1),
             3 => AEv::A(rng.range(0, 9) as usize),
-            _ => AEv::A(1 << 20),
+            _ => AEv::A(4096),
         })
         .collect();
     if let Some(k) = fail {
@@ -761,7 +766,7 @@ pub fn gen_async(rng: &mut Rng, thorough: bool, w: &mut CaseWriter) {
         if i % 4 == 0 {
             // an error at EVERY poll of the fault-free life (one poll per non-empty buffer)
             for k in 0..ncalls {
-                let mut v = vec![AEv::A(1 << 20); k];
+                let mut v = vec![AEv::A(4096); k];
                 v.push(AEv::E(code_kind(INJECT[k % INJECT.len()])));
                 scripts.push(v);
             }
@@ -834,6 +839,165 @@ pub fn run_async(c: &Case) -> Obs {
         Err((format!("async-{}-partial-write-corrupts", c.kind), format!("script={} results={rs}", c.args[0])))
     } else if !want.starts_with(&bytes) {
         Err((format!("async-{}-sink-not-a-prefix", c.kind), format!("script={} results={rs}", c.args[0])))
+    } else {
+        Ok(())
+    };
+    Obs::ok(obs, !script.is_empty()).with_verdict(v)
+}
+
+
+// ---------------------------------------------------------------------------------------------
+//   awfmt fmt seed script ops     async fasta / sam / vcf writers (fmt = afasta, asam, avcf) under
+//                                 the poll script; `ops` = the buffers each explicit operation
+//                                 offers in the fault-free life (hex, ',' within an op, ';' between)
+
+struct ALife {
+    results: Vec<String>,
+    bytes: Vec<u8>,
+    polls: usize,
+    errors: usize,
+    per_op: Vec<Vec<Vec<u8>>>,
+}
+
+fn run_alife(fmt: &str, fx: &Fx, script: Vec<AEv>, log: bool) -> Outcome<ALife> {
+    let sink = AFaultySink(Arc::new(Mutex::new(AState {
+        script,
+        log: log.then(Vec::new),
+        ..Default::default()
+    })));
+    let s2 = sink.clone();
+    guarded(AssertUnwindSafe(move || {
+        let mut results: Vec<String> = Vec::new();
+        let mut marks: Vec<usize> = Vec::new();
+        let mark = |sink: &AFaultySink| sink.0.lock().unwrap().log.as_ref().map(|l| l.len()).unwrap_or(0);
+        macro_rules! aop {
+            ($e:expr) => {{
+                let r: io::Result<()> = block_on($e);
+                results.push(ares(&r));
+                marks.push(mark(&sink));
+                r.is_ok()
+            }};
+        }
+        match (fmt, fx) {
+            ("afasta", Fx::Fasta(recs)) => {
+                let mut w = fasta::r#async::io::Writer::new(s2);
+                for r in recs {
+                    if !aop!(w.write_record(r)) {
+                        break;
+                    }
+                }
+            }
+            ("asam", Fx::Sam(h, recs)) => {
+                let mut w = sam::r#async::io::Writer::new(s2);
+                if aop!(w.write_header(h)) {
+                    for r in recs {
+                        if !aop!(w.write_alignment_record(h, r)) {
+                            break;
+                        }
+                    }
+                }
+            }
+            ("avcf", Fx::Vcf(h, recs)) => {
+                let mut w = vcf::r#async::io::Writer::new(s2);
+                if aop!(w.write_header(h)) {
+                    for r in recs {
+                        if !aop!(w.write_variant_record(h, r)) {
+                            break;
+                        }
+                    }
+                }
+            }
+            _ => panic!("awfmt {fmt}"),
+        }
+        let st = sink.0.lock().unwrap();
+        let mut per_op = Vec::new();
+        if let Some(l) = &st.log {
+            let mut at = 0;
+            for m in &marks {
+                per_op.push(l[at..*m].to_vec());
+                at = *m;
+            }
+        }
+        ALife {
+            results,
+            bytes: st.bytes.clone(),
+            polls: st.polls,
+            errors: st.errors,
+            per_op,
+        }
+    }))
+}
+
+fn afmt_fixture(fmt: &str, seed: u64) -> Fx {
+    fixture(match fmt { "afasta" => "fasta", "asam" => "sam", _ => "vcf" }, seed)
+}
+
+pub fn gen_awfmt(rng: &mut Rng, thorough: bool, w: &mut CaseWriter) {
+    let rounds = if thorough { 10 } else { 2 };
+    for _ in 0..rounds {
+        for fmt in ["afasta", "asam", "avcf"] {
+            let mut seed = rng.next() >> 8;
+            if seed % 7 == 0 {
+                seed += 1; // (seed % 7 == 0 selects the `big` fixture class)
+            }
+            let fx = afmt_fixture(fmt, seed);
+            let Outcome::Done(rf) = run_alife(fmt, &fx, vec![], true) else { continue };
+            if rf.results.iter().any(|r| r != "Ok") {
+                continue;
+            }
+            let ops = if rf.per_op.is_empty() {
+                "_".to_string()
+            } else {
+                rf.per_op
+                    .iter()
+                    .map(|o| if o.is_empty() { "-".to_string() } else { o.iter().map(|b| hex(b)).collect::<Vec<_>>().join(",") })
+                    .collect::<Vec<_>>()
+                    .join(";")
+            };
+            if ops.len() > 60_000 {
+                continue;
+            }
+            let n = rf.polls;
+            let mut scripts: Vec<Vec<AEv>> = vec![vec![]];
+            let ks: Vec<usize> = if n <= 40 { (0..n).collect() } else { (0..6).map(|_| rng.below(n as u64) as usize).collect() };
+            for k in ks {
+                let mut v = vec![AEv::A(4096); k];
+                v.push(AEv::E(code_kind(INJECT[k % INJECT.len()])));
+                scripts.push(v);
+            }
+            for j in 0..3 {
+                let sl = rng.below(2 * n as u64 + 3) as usize;
+                let fail = (j != 0).then(|| rng.below(sl as u64 + 1) as usize);
+                scripts.push(gen_ascript(rng, sl, fail));
+            }
+            for sc in scripts {
+                w.push("awfmt", vec![fmt.to_string(), seed.to_string(), fmt_ascript(&sc), ops.clone()]);
+            }
+        }
+    }
+}
+
+pub fn run_awfmt(c: &Case) -> Obs {
+    let (fmt, seed) = (c.args[0].as_str(), c.u(1));
+    let script = parse_ascript(&c.args[2]);
+    let fx = afmt_fixture(fmt, seed);
+    let out = match run_alife(fmt, &fx, script.clone(), false) {
+        Outcome::Panicked(p) => return Obs::fail("Panic", &format!("async-{fmt}-panic-on-sink-error"), p),
+        Outcome::Done(x) => x,
+    };
+    let want = match run_alife(fmt, &fx, vec![], false) {
+        Outcome::Done(x) => x.bytes,
+        Outcome::Panicked(p) => return Obs::fail("Panic", &format!("async-{fmt}-panic"), p),
+    };
+    let rs = if out.results.is_empty() { "_".to_string() } else { out.results.join(",") };
+    let obs = format!("{rs}|calls={}|{}", out.polls, fmt_bytes(&out.bytes));
+    let any_err = out.results.iter().any(|r| r != "Ok");
+    let v = if out.errors > 0 && !any_err {
+        Err((format!("async-{fmt}-sink-error-swallowed"), format!("script={}", c.args[2])))
+    } else if out.errors == 0 && (any_err || out.bytes != want) {
+        Err((format!("async-{fmt}-partial-write-corrupts"), format!("script={} results={rs}", c.args[2])))
+    } else if !want.starts_with(&out.bytes) {
+        Err((format!("async-{fmt}-sink-not-a-prefix"), format!("script={} results={rs}", c.args[2])))
     } else {
         Ok(())
     };
